@@ -34,8 +34,9 @@ def rle(seq, state, margin):
     return out
 
 
-def check_encoder(res, kind, obj, seq, margin):
-    obj.state_record_list = list(seq)
+def check_encoder(res, kind, obj, seq, margin, assign=True):
+    if assign:
+        obj.state_record_list = list(seq)
     _, _, targets = CLASSES[kind]
     try:
         got = obj.get_time_list_for_gannt_chart(finish_margin=margin)
@@ -96,6 +97,30 @@ def random_part(case, res):
         obj = mk()
         if not check_encoder(res, kind, obj, seq, margin):
             continue
+        # the same object asked again after its log changed IN PLACE (same list object: entries overwritten,
+        # appended, inserted, deleted) and with another margin
+        for _again in range(rng.randint(0, 3)):
+            log = obj.state_record_list
+            how = rng.choice(["overwrite", "append", "insert", "delete", "margin", "reverse", "clear"])
+            if how == "overwrite" and log:
+                for _k in range(rng.randint(1, 3)):
+                    log[rng.randrange(len(log))] = rng.choice(states)
+            elif how == "append":
+                log.extend([rng.choice(states)] * rng.randint(1, 3))
+            elif how == "insert":
+                log.insert(rng.randrange(len(log) + 1), rng.choice(states))
+            elif how == "delete" and log:
+                del log[rng.randrange(len(log))]
+            elif how == "reverse":
+                log.reverse()
+            elif how == "clear" and rng.random() < 0.3:
+                del log[:]
+            elif how == "margin":
+                margin = rng.choice(MARGINS)
+            seq = list(log)
+            res.count("C19.encoder_checks_after_in_place_change")
+            if not check_encoder(res, kind, obj, seq, margin, assign=False):
+                break
         # plotly rows: index k -> init + k * unit
         init = datetime.datetime(2020 + rng.randint(0, 3), rng.randint(1, 12), rng.randint(1, 28), rng.randint(0, 23), 0, 0)
         unit = rng.choice([datetime.timedelta(minutes=1), datetime.timedelta(hours=1), datetime.timedelta(days=1), datetime.timedelta(minutes=90), datetime.timedelta(days=7)])
@@ -144,62 +169,88 @@ def queries_part(case, res):
         def oracle(objs, st):
             return sorted(id(o) for o in objs if all(t < len(o.state_record_list) and o.state_record_list[t] == st for t in times))
 
-        # tasks
+        # objects first, then the questions (asked again after the logs changed in place)
         tasks = []
-        for k, s in enumerate(seqs(CLASSES["task"][1])):
+        for k, s_ in enumerate(seqs(CLASSES["task"][1])):
             t = ns.BaseTask("t%d" % k)
             if rng.random() < 0.2:
-                s = [int(x) for x in s]      # e.g. a log taken over from a JSON file without conversion
+                s_ = [int(x) for x in s_]      # e.g. a log taken over from a JSON file without conversion
                 res.count("C19.logs_with_equal_but_foreign_members")
-            t.state_record_list = s
+            t.state_record_list = s_
             tasks.append(t)
         wf = ns.BaseWorkflow(tasks)
-        for st, fn in ((TS.NONE, wf.extract_none_task_list), (TS.READY, wf.extract_ready_task_list),
-                       (TS.WORKING, wf.extract_working_task_list), (TS.FINISHED, wf.extract_finished_task_list)):
-            res.count("C19.query_checks")
-            got = fn(list(times))
-            if sorted(map(id, got)) != oracle(tasks, st):
-                res.violate("C19", "C19/extract-tasks:%s" % st.name, "extract %s tasks at %s: got %s, logs say %s" % (
-                    st.name, times, sorted(t.name for t in got), sorted(t.name for t in tasks if id(t) in oracle(tasks, st))))
         comps = []
-        for k, s in enumerate(seqs(CLASSES["component"][1])):
+        for k, s_ in enumerate(seqs(CLASSES["component"][1])):
             c = ns.BaseComponent("c%d" % k)
-            c.state_record_list = s
+            c.state_record_list = s_
             comps.append(c)
         pr = ns.BaseProduct(comps)
-        for st, fn in ((CS.NONE, pr.extract_none_component_list), (CS.READY, pr.extract_ready_component_list),
-                       (CS.WORKING, pr.extract_working_component_list), (CS.FINISHED, pr.extract_finished_component_list)):
-            res.count("C19.query_checks")
-            got = fn(list(times))
-            if sorted(map(id, got)) != oracle(comps, st):
-                res.violate("C19", "C19/extract-components:%s" % st.name, "extract %s components at %s: got %s" % (st.name, times, sorted(c.name for c in got)))
         ws = []
-        for k, s in enumerate(seqs(CLASSES["worker"][1])):
+        for k, s_ in enumerate(seqs(CLASSES["worker"][1])):
             w = ns.BaseWorker("w%d" % k)
-            w.state_record_list = s
+            w.state_record_list = s_
             ws.append(w)
         tm = ns.BaseTeam("tm", worker_list=ws)
-        for st, fn in ((WS.FREE, tm.extract_free_worker_list), (WS.WORKING, tm.extract_working_worker_list)):
-            res.count("C19.query_checks")
-            got = fn(list(times))
-            if sorted(map(id, got)) != oracle(ws, st):
-                res.violate("C19", "C19/extract-workers:%s" % st.name, "extract %s workers at %s: got %s" % (st.name, times, sorted(w.name for w in got)))
         fs = []
-        for k, s in enumerate(seqs(CLASSES["facility"][1])):
+        for k, s_ in enumerate(seqs(CLASSES["facility"][1])):
             f = ns.BaseFacility("f%d" % k)
             if rng.random() < 0.3:
                 # equal values, other objects: the sibling enum (the library itself stores BaseWorkerState
                 # members in facility logs in append_project_log_from_simple_json) or plain ints
-                s = [WS(int(x)) if rng.random() < 0.5 else int(x) for x in s]
+                s_ = [WS(int(x)) if rng.random() < 0.5 else int(x) for x in s_]
                 res.count("C19.logs_with_equal_but_foreign_members")
-            f.state_record_list = s
+            f.state_record_list = s_
             fs.append(f)
         wp = ns.BaseWorkplace("wp", facility_list=fs)
-        for st, fn in ((FS_.FREE, wp.extract_free_facility_list), (FS_.WORKING, wp.extract_working_facility_list)):
-            res.count("C19.query_checks")
-            got = fn(list(times))
-            if sorted(map(id, got)) != oracle(fs, st):
-                res.violate("C19", "C19/extract-facilities:%s" % st.name, "extract %s facilities at %s: got %s" % (st.name, times, sorted(f.name for f in got)))
+
+        def ask(again):
+            for st, fn in ((TS.NONE, wf.extract_none_task_list), (TS.READY, wf.extract_ready_task_list),
+                           (TS.WORKING, wf.extract_working_task_list), (TS.FINISHED, wf.extract_finished_task_list)):
+                res.count("C19.query_checks")
+                got = fn(list(times))
+                if sorted(map(id, got)) != oracle(tasks, st):
+                    res.violate("C19", "C19/extract-tasks:%s" % st.name, "extract %s tasks at %s%s: got %s, logs say %s" % (
+                        st.name, times, again, sorted(t.name for t in got), sorted(t.name for t in tasks if id(t) in oracle(tasks, st))))
+            for st, fn in ((CS.NONE, pr.extract_none_component_list), (CS.READY, pr.extract_ready_component_list),
+                           (CS.WORKING, pr.extract_working_component_list), (CS.FINISHED, pr.extract_finished_component_list)):
+                res.count("C19.query_checks")
+                got = fn(list(times))
+                if sorted(map(id, got)) != oracle(comps, st):
+                    res.violate("C19", "C19/extract-components:%s" % st.name, "extract %s components at %s%s: got %s" % (st.name, times, again, sorted(c.name for c in got)))
+            for st, fn in ((WS.FREE, tm.extract_free_worker_list), (WS.WORKING, tm.extract_working_worker_list)):
+                res.count("C19.query_checks")
+                got = fn(list(times))
+                if sorted(map(id, got)) != oracle(ws, st):
+                    res.violate("C19", "C19/extract-workers:%s" % st.name, "extract %s workers at %s%s: got %s" % (st.name, times, again, sorted(w.name for w in got)))
+            for st, fn in ((FS_.FREE, wp.extract_free_facility_list), (FS_.WORKING, wp.extract_working_facility_list)):
+                res.count("C19.query_checks")
+                got = fn(list(times))
+                if sorted(map(id, got)) != oracle(fs, st):
+                    res.violate("C19", "C19/extract-facilities:%s" % st.name, "extract %s facilities at %s%s: got %s" % (st.name, times, again, sorted(f.name for f in got)))
+
+        ask("")
+        for _again in range(rng.randint(0, 2)):
+            # logs changed in place (entries overwritten / appended), members added, other times asked
+            for objs, states in ((tasks, CLASSES["task"][1]), (comps, CLASSES["component"][1]), (ws, CLASSES["worker"][1]), (fs, CLASSES["facility"][1])):
+                for o in objs:
+                    log = o.state_record_list
+                    r_ = rng.random()
+                    if r_ < 0.4 and log:
+                        typ = type(log[0])
+                        for _k in range(rng.randint(1, 3)):
+                            v = rng.choice(states)
+                            log[rng.randrange(len(log))] = v if isinstance(v, typ) else (typ(int(v)) if typ is not int else int(v))
+                    elif r_ < 0.6:
+                        log.append(rng.choice(states))
+            if rng.random() < 0.4:
+                t = ns.BaseTask("t_new")
+                t.state_record_list = [rng.choice(CLASSES["task"][1]) for _ in range(T)]
+                wf.append_child_task(t)
+                tasks.append(t)
+            if rng.random() < 0.5:
+                times = [rng.randint(0, T + 2) for _ in range(rng.randint(0, 4))]
+            res.count("C19.query_rounds_after_in_place_change")
+            ask(" (asked again after the logs changed in place)")
         # set_last_datetime
         p = ns.BaseProject(init_datetime=datetime.datetime(2020, 1, 1), unit_timedelta=datetime.timedelta(days=1))
         p.time = rng.randint(1, 400)
